@@ -3,9 +3,10 @@
 inside it to the C15 contract stub."""
 
 
-def lemma_rows_get_distinct_seeds(random_state, i, j):
+def lemma_rows_get_distinct_seeds(random_state, i, j, meta_entries):
     """requires 0 <= i, j < 2**31;  ensures i != j  =>  the two rows receive different seeds, and each
-    seed is sub_seed(state word of random_state, row index)."""
-    a = prepare_seed(random_state=random_state, index_in_batch=i)
-    b = prepare_seed(random_state=random_state, index_in_batch=j)
+    seed is sub_seed(state word of random_state, row index); meta_entries = the other run-metadata entries of the batch
+    (batch_index, submission_index, master_seed, model_name), the same for both rows."""
+    a = prepare_seed(random_state=random_state, index_in_batch=i, **meta_entries)
+    b = prepare_seed(random_state=random_state, index_in_batch=j, **meta_entries)
     return a[1]['seed'], b[1]['seed']
